@@ -148,7 +148,9 @@ def step (s : St) : Label → St
   | .setMaxFrame v =>
     if s.closed || s.panicked then s else
     match s.side with
-    | .client => { s with maxFrame := v, trace := s.trace ++ [Obs.sMax v] }
+    | .client =>   -- [c08l9] Setting.Valid() in the callback of MClientConn.processSettings (since fix 'SETTINGS of an upstream validated')
+      if v < 16384 || 16777215 < v then { s with closed := true, trace := s.trace ++ [Obs.sMax v, Obs.connError] }
+      else { s with maxFrame := v, trace := s.trace ++ [Obs.sMax v] }
     | .server =>   -- Setting.Valid()
       if v < 16384 || 16777215 < v then { s with closed := true, trace := s.trace ++ [Obs.sMax v, Obs.connError] }
       else { s with maxFrame := wrap32 v, trace := s.trace ++ [Obs.sMax v] }
